@@ -108,6 +108,7 @@ type Stack struct {
 	FaultAt2    int
 	FaultKind   FaultKind
 	FaultLabel  string // fail the first seam call with this label ("" = none)
+	MailFault   bool   // every Mailer.Send fails (kept apart from the seam counter: C18's fault enumeration is about the backends its statement names)
 	faultFired  []string
 	stateWrites int
 	// UsedTokens records the (pid, hash) pairs UseRememberToken consumed during the current request.
@@ -224,8 +225,12 @@ func (m mailer) Send(_ context.Context, e authboss.Email) error {
 	defer m.s.guard()()
 	m.s.W.Mails = append(m.s.W.Mails, Mail{
 		To: append([]string(nil), e.To...), Cc: append([]string(nil), e.Cc...), Bcc: append([]string(nil), e.Bcc...),
-		Subject: e.Subject, Text: e.TextBody, HTML: e.HTMLBody,
+		Subject: e.Subject, Text: e.TextBody, HTML: e.HTMLBody, Failed: m.s.MailFault,
 	})
+	if m.s.MailFault {
+		m.s.faultFired = append(m.s.faultFired, "mailer.Send")
+		return ErrInjected
+	}
 	return nil
 }
 
